@@ -76,7 +76,7 @@ reg(Prop('C14', ph.gen_item_C14, ph.eval_C14, 3000, 40000,
          "histories of 2-10 operations (cache-warming queries, prunes, Newick export, save/load in both formats, plotter "
          "construction) on a seeded computed dendrogram; after every step all observables are compared with the model "
          "(a function of the current forest) and with a dendrogram rebuilt from links, label map and data; non-trivial = a "
-         "prune removed a structure", ASSUME_COMPUTE, ['C14_history_sound', 'C14_level', 'C14_descendants', 'C14_prune_sound', 'C14_old_stale_level', 'C14_old_stale_descendants', 'C14_old_stale_newick']))
+         "prune removed a structure", ASSUME_COMPUTE, ['C14_history_sound', 'C14_level', 'C14_descendants', 'C14_prune_sound', 'C14_prune_resets_all', 'C14_descendants_nodup', 'C14_old_stale_level', 'C14_old_stale_descendants', 'C14_old_stale_newick']))
 
 import props_analysis as pa  # noqa: E402
 
@@ -143,7 +143,7 @@ reg(Prop('C12', pa.gen_item_C12, pa.eval_C12, 1500, 16000,
          "seeded 2-D and 3-D dendrograms (optionally pruned -> id gaps; optionally a sub-list of structures), default or random field subsets, "
          "verbose on/off; every row compared with the statistic of that structure alone (index arrays unwrapped by the Lean model of the "
          "heuristic); periodic data re-computed under a cyclic shift: shape statistics of narrow structures unchanged, centroid moved by "
-         "the shift modulo the axis length", ASSUME_ANALYSIS, ['C12_wrap_noop_narrow', 'C12_wrap_cases', 'C12_wrap_period', 'C12_wrap_never_wider', 'C12_wrap_unwraps', 'C12_wrap_noop_one_side', 'ADProps::C12_rows_ids', 'ADProps::C12_rows_faithful']))
+         "the shift modulo the axis length", ASSUME_ANALYSIS, ['C12_wrap_noop_narrow', 'C12_wrap_cases', 'C12_wrap_period', 'C12_wrap_never_wider', 'C12_wrap_unwraps', 'C12_wrap_noop_one_side', 'C12_wrap_noop_of_interval', 'C12_interval_of_unit_steps', 'ADProps::C12_rows_ids', 'ADProps::C12_rows_faithful']))
 PROPS['C11'].lib = 'ADPropsM'
 PROPS['C12'].lib = 'ADPropsM'
 
@@ -154,7 +154,7 @@ reg(Prop('C19', pv.gen_item_C19, pv.eval_C19, 320, 3000,
          "registered callbacks; sequences of 2-6 synthetic events (pixel clicks incl. unowned pixels, line picks of 1-2 lines, lassos around "
          "0-3 catalog rows, slice changes) over the three slots; after every event selections, subtree flags, highlighted lines, label text, "
          "contour masks (captured at Axes.contour), highlighted scatter rows and the callback log are compared with the Lean hub model",
-         ASSUME_IO + ["rendering and real GUI event delivery are Matplotlib's: events are synthetic objects with the attributes the handlers read"], ['C19_click', 'C19_cleared', 'C19_slots_independent', 'C19_notify_once', 'C19_highlight_subtree', 'C19_lasso', 'C19_lasso_rows', 'C19_lasso_empty']))
+         ASSUME_IO + ["rendering and real GUI event delivery are Matplotlib's: events are synthetic objects with the attributes the handlers read"], ['C19_click', 'C19_cleared', 'C19_slots_independent', 'C19_notify_once', 'C19_highlight_subtree', 'C19_lasso', 'C19_lasso_rows', 'C19_lasso_empty', 'C19_pick']))
 
 for _p, _b in (('C19', 8), ('C12', 30), ('C15', 30), ('C09', 60), ('C18', 60)):
     PROPS[_p].shrink_budget = _b
